@@ -81,11 +81,14 @@ Definition covered : list site := map fst covered_with_reason.
    - package-level variables that no function reachable from block execution assigns (no global-write site
      for them in the same inventory): initialised once, constants in all but the keyword. *)
 Definition gate_names : list string :=
-  ["common.IsSub"; "common.IsMainnet"; "common.IsRobin"; "common.IsDEV"; "common.IsFullNode"; "common.GetRewardBlocks";
+  ["common.IsSub"; "common.IsMainnet"; "common.IsRobin"; "common.IsDEV"; "common.GetRewardBlocks";
    "common.GetRefundBlocks"; "common.GetBlocksPerEpoch"; "common.GetChainId"; "common.ChainId"; "common.NetworkId"; "common.MainNodeContract"].
 Definition is_gate (d : string) : bool :=
   prefix "common.IsProposal" d || existsb (String.eqb d) gate_names.
-Definition is_reader_call (d : string) : bool := is_gate d || String.eqb d "common.GetBlockHeight".
+(* node-LOCAL readers are never covered by rule: the head height and the node's role (full node / miner
+   node, a start-up flag) differ between replicas of one chain *)
+Definition is_reader_call (d : string) : bool :=
+  is_gate d || String.eqb d "common.GetBlockHeight" || String.eqb d "common.IsFullNode".
 Definition written_in (inv : list site) (d : string) : bool :=
   existsb (fun w => String.eqb (s_kind w) "global-write" && prefix (d ++ " via ") (s_detail w)) inv.
 Definition rule_covered (inv : list site) (s : site) : bool :=
